@@ -91,14 +91,16 @@ def difference(d1, d2, level=-1):
         if key not in d2:
             result[key] = d1[key]
         elif d1[key] != d2[key]:
-            if isinstance(d1[key], dict) and isinstance(d2[key], dict):
+            if (level != 1 and isinstance(d1[key], dict)
+                and isinstance(d2[key], dict)):
                 res = difference(d1[key], d2[key], level-1)
                 # if d2[key] contains all d1[key] elements,
                 # the difference will be empty
                 if res:
                     result[key] = res
             else:
-                # different values, at least one is not a dictionary:
+                # different values that are not compared deeper
+                # (level 1, or at least one is not a dictionary):
                 # d1[key] is not contained in d2
                 # (also if it is 0, False, None or empty)
                 result[key] = d1[key]
